@@ -23,7 +23,10 @@ for d in seeded/$pat/; do
     if [ $rc -eq 1 ] && [ "$n" -ge 1 ]; then caught="$caught $c($n signature(s): $(echo "$out" | grep -m1 'signature:' | cut -c1-110))"; fi
   done
   git -C /repo checkout -- .
-  if [ -n "$caught" ]; then echo "$id: caught by$caught"; else echo "$id: NOT CAUGHT (checks run: $checks)"; fail=1; fi
+  expect=$(python3 -c "import json; print(json.load(open('$d/meta.json')).get('confirmed_by_hand',{}).get('expected_by_seedall','caught'))" 2>/dev/null || echo caught)
+  if [ -n "$caught" ]; then echo "$id: caught by$caught";
+  elif [ "$expect" = "not-caught" ]; then echo "$id: not caught, as recorded (outside the property as stated; see meta.json)";
+  else echo "$id: NOT CAUGHT (checks run: $checks)"; fail=1; fi
 done
 git -C /repo status --short | head -3
 exit $fail
